@@ -28,7 +28,17 @@ func (fc *FuncCtx) evalCallInner(call *ast.CallExpr, st *St) []Term {
 		}
 	}
 	// method call on bytes.Buffer and friends / declared function
-	if fn := fc.calleeFunc(call); fn != nil {
+	if fn := fc.calleeFunc(call); fn != nil && fn.Pkg() == nil {
+		// a method of a universe type (error.Error): an uninterpreted function of the receiver
+		if sel, ok := fun.(*ast.SelectorExpr); ok {
+			recv := fc.eval(sel.X, st)
+			rs := fc.sortOf(fc.typeOf(call))
+			name := "universe_" + fn.Name() + "_" + mangle(recv.Sort.SMT())
+			fc.declareFun(name, []*Sort{recv.Sort}, rs)
+			return []Term{App(rs, name, recv)}
+		}
+	}
+	if fn := fc.calleeFunc(call); fn != nil && fn.Pkg() != nil {
 		key := funcKey(fn)
 		inRepo := fn.Pkg() != nil && fc.E.Pkgs[fn.Pkg().Path()] != nil
 		var recv *Term
@@ -240,6 +250,13 @@ func (fc *FuncCtx) evalBuiltin(name string, call *ast.CallExpr, st *St) []Term {
 		return []Term{T("0", so)}
 	case "append":
 		return []Term{fc.evalAppend(call, st)}
+	case "recover":
+		// recover() returns the value of the panic in flight (nil when there is none): the abstract global panicval
+		if ty, ok := fc.E.CS.Globals["panicval"]; ok {
+			return []Term{fc.globOf(st, "panicval", fc.sortOfSType(ty, nil))}
+		}
+		fc.unsupported(st, "recover() without a declared panicval global", fc.pos(call))
+		return fc.deadResults(call)
 	}
 	fc.unsupported(st, "builtin "+name, fc.pos(call))
 	return fc.deadResults(call)
@@ -901,18 +918,52 @@ func (fc *FuncCtx) callByContract(con *Contract, ref *FuncRef, fn *types.Func, a
 		fc.oblig(st, "call."+ord+".pre."+r.Name, fc.spec(r.Expr, env), "precondition of "+con.Key+": "+r.Src, pos, nil)
 		st.assume(fc.spec(r.Expr, env))
 	}
+	// panic paths of the callee: it may have modified what its contract lets it modify, and its onpanic
+	// clauses hold
+	calleePanics := func(s2 *St, what string) {
+		penv := fc.newEnv(s2)
+		penv.calleeCon = con
+		penv.old = pre
+		for k, v := range env.bound {
+			penv.bound[k] = v
+		}
+		penv.tparams = env.tparams
+		for _, m := range con.Modifies {
+			if strings.HasPrefix(m, "glob:") {
+				g := strings.TrimPrefix(m, "glob:")
+				if ty, ok := fc.E.CS.Globals[g]; ok {
+					so := fc.sortOfSType(ty, nil)
+					fc.globOf(pre, g, so)
+					fc.globOf(s2, g, so)
+					s2.glob[g] = fc.fresh("glob_"+g, so)
+				}
+			} else if m == "maps" || m == "heap" || m == "bufs" {
+				// conservatively unknown after a panic inside the callee
+				for k := range s2.mdom {
+					s2.mdom[k] = fc.fresh("mdom", s2.mdom[k].Sort)
+				}
+				for k := range s2.mval {
+					s2.mval[k] = fc.fresh("mval", s2.mval[k].Sort)
+				}
+			}
+		}
+		for _, cl := range con.OnPanic {
+			s2.assume(fc.spec(cl.Expr, penv))
+		}
+		fc.panicAt(s2, pos, what)
+	}
 	switch con.Panics {
 	case "iff":
 		pc := fc.spec(con.PanicsCond, env)
 		// the callee panics exactly when pc holds: that is a panic site of the caller
 		s2 := st.clone()
 		s2.assume(pc)
-		fc.panicAt(s2, pos, "callee "+con.Key+" panics")
+		calleePanics(s2, "callee "+con.Key+" panics")
 		st.assume(Not(pc))
 	case "may":
-		if fc.Con.Panics != "may" && fc.Con.Panics != "" {
+		if fc.Con.Panics != "may" && fc.Con.Panics != "" || len(fc.Con.OnPanic) > 0 {
 			s2 := st.clone()
-			fc.panicAt(s2, pos, "callee "+con.Key+" may panic")
+			calleePanics(s2, "callee "+con.Key+" may panic")
 		}
 	}
 	// a callback parameter of the caller handed to the callee may be called by it: its trace is havocked
